@@ -152,7 +152,7 @@ def strategy(spec, ctx):
         feats = [f for f in dsl.ALL_FEATURES if f != 'anchor']
         op = dsl.tree_strategy(feats, max_leaves=4, look_kinds=('nfb', 'npb', 'neb'))
     else:
-        small = dsl.tree_strategy([f for f in dsl.ALL_FEATURES if f not in ('anchor', 'look')], max_leaves=2)
+        small = st.one_of(dsl.tree_strategy([f for f in dsl.ALL_FEATURES if f not in ('anchor', 'look')], max_leaves=2), dsl.hostile_tree(4))
         anchors = st.tuples(st.sampled_from(['start', 'end', 'lstart', 'lend']), st.sampled_from(['class', 'method']),
                             small).map(lambda t: ['anchor', t[0], t[1], t[2]])
         looks = st.tuples(st.sampled_from(['fb', 'pb', 'eb']), st.sampled_from(['class', 'method']), small,
